@@ -56,3 +56,36 @@ package task
 //@   on call append when argname0 == "taskNonCriticalErrors" : assert !lastCrit && !lastParentCrit
 //@   loop 3 invariant len(taskCriticalErrors) == nCrit && nCrit >= 0
 //@   ensures multi ==> (err != nil <==> nCrit > 0)
+
+// ---------------------------------------------------------------------------------------------------------
+// C05: a task is matched to an offer only if the offered CPU, memory and ports cover what its template asks for.
+// The mesos-go resource algebra (CPUs, Memory, Ports, Ranges.Compare/Size, RangeBuilder.Span) is assumed; what is proved
+// is that "true" is returned only when every one of those checks was made on this offer and came out in favour:
+// enough CPU, enough memory, every static range spanned and a subset of the offered ports (Compare == -1), and at least
+// as many further ports as there are inbound channels.
+//@ func (r Resources) Satisfy(wants *Wants) (ok bool)
+//@   property C05
+//@   requires wants != nil
+//@   ghostvar cpuOk bool = false
+//@   ghostvar cpus float64 = 0
+//@   ghostvar memOk bool = false
+//@   ghostvar mem uint64 = 0
+//@   ghostvar portsOk bool = false
+//@   ghostvar spans int = 0
+//@   ghostvar compared bool = false
+//@   ghostvar cmp int = 0
+//@   ghostvar sizes int = 0
+//@   ghostvar availSize uint64 = 0
+//@   ghostvar wantSize uint64 = 0
+//@   on aftercall resources.CPUs : cpus = result0 ; cpuOk = result1
+//@   on aftercall resources.Memory : mem = result0 ; memOk = result1
+//@   on aftercall resources.Ports : portsOk = result1
+//@   on call (*resources.RangeBuilder).Span : spans = spans + 1
+//@   on aftercall (mesos.Ranges).Compare : assert !compared ; compared = true ; cmp = result
+//@   on aftercall (mesos.Ranges).Size : availSize = if sizes == 0 then result else availSize ; wantSize = if sizes == 1 then result else wantSize ; sizes = sizes + 1
+//@   loop 1 invariant spans == #i + 1 && #i < len(wants.StaticPorts) && !compared && sizes == 0
+//@   ensures ok ==> cpuOk && wants.Cpu <= cpus
+//@   ensures ok ==> memOk
+//@   ensures ok ==> portsOk && spans == len(wants.StaticPorts)
+//@   ensures ok ==> compared && cmp == -1
+//@   ensures ok ==> sizes == 2 && (availSize >= wantSize ==> availSize - wantSize >= len(wants.InboundChannels))
